@@ -70,6 +70,7 @@ static uint16_t rand_seed;
 static struct packet outpkt;
 static struct packet inpkt;
 int outchunkresent = 0;
+static time_t outchunktime;		/* when the current chunk was last (re)sent */
 
 /* My userid at the server */
 static char userid;
@@ -377,6 +378,7 @@ send_chunk(int fd)
 		outpkt.sentlen);
 #endif
 
+	outchunktime = time(NULL);
 	send_query(fd, buf);
 }
 
@@ -1127,6 +1129,14 @@ client_tunnel(int tun_fd, int dns_fd)
 
 		if (i < 0)
 			err(1, "select");
+
+		if (i > 0 && is_sending() && outchunktime + 1 < time(NULL)) {
+			/* Packets arriving on tun (dropped while re-sending)
+			   or unrelated DNS replies restart the select timeout
+			   every time; don't let them starve the retransmit
+			   timer, or we never re-send, give up or ping again. */
+			i = 0;
+		}
 
 		if (i == 0) {
 			/* timeout */
